@@ -117,6 +117,15 @@ theorem leave_closes (cfg : Cfg) (rib : Bool) (evs : List Event) :
   refine hinv.quietFresh ?_ k hk
   cases hs : s.fsm <;> simp [hs, isConnected] at hf ⊢
 
+/-- ... and every connection the peer ever had (ids 1, 2, … in order of creation) is either
+    `peer.proto` now or was closed: its `close` is in the trace.  With `leave_closes`: outside the
+    connected states every transport on which the peer ever wrote has been closed. -/
+theorem transports_closed_or_current (cfg : Cfg) (rib : Bool) (evs : List Event) :
+    let s := (run (init cfg rib) evs).1
+    ∀ i, 0 < i → i < s.nextId → (∃ k, s.conn = some k ∧ k.id = i) ∨ Out.close i ∈ trace cfg rib evs := by
+  intro s i h0 hi
+  exact run_transports_accounted cfg rib evs i h0 hi
+
 /-- **C05, API (full).** Between two `up` of the neighbor there is a `down`. -/
 theorem up_down_alternate (cfg : Cfg) (rib : Bool) (evs : List Event) (xs ys zs : List Out)
     (h : trace cfg rib evs = xs ++ Out.up :: ys ++ Out.up :: zs) : Out.down ∈ ys := by
